@@ -47,7 +47,7 @@ MSGID = '<c08.1@verif.example>'
 MECHS = [b'PLAIN', b'LOGIN', b'CRAM-MD5']
 ADDR = ('192.0.2.1', 4321)
 
-K_BANNER, K_EHLO, K_HELO, K_AUTH, K_RSET, K_MAIL, K_RCPT, K_DATA, K_HAVE, K_QUEUED = range(10)
+K_BANNER, K_EHLO, K_HELO, K_AUTH, K_RSET, K_MAIL, K_RCPT, K_DATA, K_HAVE, K_QUEUED, K_STLS = range(11)
 
 _ctx = {}
 
@@ -261,6 +261,14 @@ class TraceSession(SmtpSession):
         rec.events.append((1, enc, c, (int(reply.code),)))
 
 
+class TraceSessionHook(TraceSession):
+    """the same plus a STARTTLS hook (Server calls handlers.STARTTLS(reply, extensions) if there is
+    one; SmtpSession has none): used only by cases that give the hook a verdict"""
+
+    def STARTTLS(self, reply, extensions):
+        self._rec.verdict(K_STLS, b'', reply)
+
+
 def make_validators(rec):
     class V(SmtpValidators):
         def handle_banner(self, reply, address):
@@ -354,7 +362,8 @@ def run_server_case(case):
     tap = Tap()
     CUR['tap'] = tap
     rec = Rec(case)
-    session = TraceSession(rec, ADDR, make_validators(rec), handoff_for(rec))
+    cls = TraceSessionHook if any(k == K_STLS for k, a, v in case.get('verdicts', [])) else TraceSession
+    session = cls(rec, ADDR, make_validators(rec), handoff_for(rec))
     server = Server(a, session, ADDR, auth=(list(MECHS) if case['auth'] == 2 else bool(case['auth'])),
                     context=(sctx if case['context'] else None), tls_immediately=bool(case['imm']))
     rec.server = server
@@ -388,9 +397,12 @@ def run_server_case(case):
         if not tap.quiet.wait(5.0):
             raise Stuck('server did not become quiescent: %r' % (case,))
 
+    nev = []            # number of callbacks recorded when each step was collected
+
     def collect(kind):
         data, eof = drain(sock)
         steps.append((int(on_tls), data, parse_replies(data)))
+        nev.append(len(rec.events))
 
     try:
         if not case['imm']:
@@ -415,6 +427,7 @@ def run_server_case(case):
             elif act[0] == 'tls':
                 if not (case['imm'] and not steps) and not tap.in_handshake:
                     steps.append((int(on_tls), b'', []))     # STARTTLS was refused: the client goes on in clear text
+                    nev.append(len(rec.events))
                     continue
                 tap.quiet.clear()
                 try:
@@ -460,7 +473,7 @@ def run_server_case(case):
              int(session.security == 'TLS'))
     if hs is None and tap.hs_started and not server.io.encrypted:
         hs = 0           # the server waited for a ClientHello that never came
-    return dict(steps=steps, events=rec.events, end=rec.end, crash=getattr(rec, 'crash', None), state=state,
+    return dict(nev=nev, steps=steps, events=rec.events, end=rec.end, crash=getattr(rec, 'crash', None), state=state,
                 plain=[d for e, d in tap.chunks if not e], tls=[d for e, d in tap.chunks if e],
                 hs=hs, stale=rec.stale, tls_bytes=tls_bytes)
 
@@ -694,11 +707,40 @@ def oracle_server(ctx, case, r, twin=None):
     base = 0 if case['imm'] else 1
     greeted_tls = bool(case['imm'])
     reported = set()
+    partial = False          # the previous write ended in the middle of a line
     for i, act in enumerate(script):
         j = base + i
         if j >= len(r['steps']):
             break
         chan, data, parsed = r['steps'][j]
+        if act[0] != 'send':
+            partial = False
+        if act[0] == 'send':
+            words0 = [ln.split(None, 1)[0].upper() if ln.split() else b'' for ln in act[1].split(b'\r\n') if ln]
+            units0 = reply_units(data)
+            was_partial = partial
+            partial = not act[1].endswith(b'\n')
+            if len(words0) == 1 and len(units0) == 1 and not partial and not was_partial and j >= 1 and j - 1 < len(r['nev']):
+                # a single command line: was a greeting accepted (callback left 250) before it, since the handshake?
+                greeted = False
+                mode_cmd = True
+                for ev in r['events'][:r['nev'][j - 1]]:
+                    if ev[0] == 0 and ev[2][0] == 1:
+                        greeted = False
+                    elif ev[0] == 0 and ev[2][0] == 0 and ev[2][1] in (K_EHLO, K_HELO) and ev[2][4] == (250,):
+                        greeted = True
+                prev = r['steps'][j - 1][2]
+                in_exchange = bool(prev) and prev[-1][0] in (334, 354)      # this line is an answer / content, not a command
+                w, u = words0[0], units0[0]
+                if w in (b'AUTH', b'MAIL', b'STARTTLS') and not greeted and not in_exchange and u[0] < 400 and 'nogreet' not in reported:
+                    reported.add('nogreet')
+                    fail(ctx, 'c08:identity-without-accepted-greeting', case,
+                         '%s was answered %d %r although no EHLO/HELO had been accepted by the application (since the start / the handshake): '
+                         'it must be refused with 503' % (w.decode(), u[0], u[2]))
+            if i == case.get('all_lines_answered') and len(words0) != len(units0):
+                fail(ctx, 'c08:refused-starttls-drops-pipelined-commands', case,
+                     'the %d command lines of %r got %d replies %r: STARTTLS was refused, so what was pipelined behind it are ordinary commands'
+                     % (len(words0), act[1], len(units0), data))
         if not chan:
             continue
         for u in reply_units(data):
@@ -727,19 +769,26 @@ def oracle_server(ctx, case, r, twin=None):
         if ehlo_as is not None and not case['imm']:
             fail(ctx, 'c08:edge-ehlo-identity-survives-starttls', case,
                      'SmtpSession.ehlo_as is still %r (given in clear text) at the first callback (%s) after the handshake' % (ehlo_as, name))
-    # (5) AUTH: handler only with the gates open
-    st = dict(ehlo=False, authed=False, mail=False)
+    # (5) AUTH: handler only with the gates open.  An EHLO identity exists only through a greeting
+    #     the application accepted (handler left 250) since the start / the handshake.
+    st = dict(ehlo=False, authed=False, mail=False, ident=None)
     for ev in r['events']:
         if ev[0] == 0 and ev[2][0] == 1:
             st['ehlo'] = False
             st['mail'] = False
+            st['ident'] = None
         elif ev[0] == 0 and ev[2][0] == 0:
             kid, code = ev[2][1], ev[2][4]
             if kid in (K_EHLO, K_HELO) and code == (250,):
                 st['ehlo'] = True
                 st['mail'] = False
-            elif kid == K_MAIL and code == (250,):
-                st['mail'] = True
+                st['ident'] = ev[2][2]
+            elif kid == K_MAIL:
+                if not st['ehlo']:
+                    fail(ctx, 'c08:identity-without-accepted-greeting', case,
+                         'MAIL handler called although no EHLO/HELO was accepted by the application (since the start / the handshake)')
+                if code == (250,):
+                    st['mail'] = True
             elif kid == K_RSET or kid == K_HAVE:
                 st['mail'] = False
         elif ev[0] == 1:
@@ -752,6 +801,10 @@ def oracle_server(ctx, case, r, twin=None):
             if code == (235,):
                 st['authed'] = True
                 st['cid'] = creds[1]
+    if r['state'][1] != st['ident']:
+        fail(ctx, 'c08:identity-without-accepted-greeting', case,
+             'Server.ehlo_as is %r at the end of the session; the last greeting the application accepted (since the handshake) was %r'
+             % (r['state'][1], st['ident']))
     if bool(r['state'][4]) != st['authed']:
         fail(ctx, 'c08:authed-without-235', case, 'Server.authed=%r but the AUTH handler kept 235: %r' % (r['state'][4], st['authed']))
     if st['authed'] and r['state'][10] is not None and r['state'][10] != st['cid']:
@@ -1200,6 +1253,62 @@ def graph_cases():
     return cs
 
 
+GREET_PREFIXES = [
+    ('Ebad', [b'EHLO bad.example\r\n']),
+    ('Eok-Ebad', [b'EHLO ok.example\r\n', b'EHLO bad.example\r\n']),
+    ('Hbad', [b'HELO bad.example\r\n']),
+    ('Eok-Hbad', [b'EHLO ok.example\r\n', b'HELO bad.example\r\n']),
+    ('Ebad-Hbad', [b'EHLO bad.example\r\n', b'HELO bad.example\r\n']),
+    ('Ebad-Eok', [b'EHLO bad.example\r\n', b'EHLO ok.example\r\n']),
+]
+
+
+def greet_cases(ctx):
+    """the application rejects a greeting (EHLO/HELO handler sets 550 / 450 / 421 / raises): in clear
+    text, after STARTTLS, with immediate TLS; then AUTH (every shape), MAIL, STARTTLS"""
+    cs = []
+    follow = [('mail', [b'MAIL FROM:<s@x.example>\r\n', b'RCPT TO:<r@x.example>\r\n']),
+              ('starttls', [b'STARTTLS\r\n'])]
+    for v in (550, 450, 421, 1):
+        for pname, plines in GREET_PREFIXES:
+            for place in ('clear', 'starttls', 'imm'):
+                pre = []
+                if place == 'imm':
+                    pre = [('tls',)]
+                elif place == 'starttls':
+                    pre = [('send', b'EHLO a.example\r\n'), ('send', b'STARTTLS\r\n'), ('tls',)]
+                full = (v == 550 and pname == 'Ebad') or not ctx.quick
+                shapes = range(len(AUTH_SHAPES)) if full else SHORT_SHAPES
+                fl = list(follow) + [('auth%d' % sh, [AUTH_SHAPES[sh][0] + b'\r\n'] + [a + b'\r\n' for a in AUTH_SHAPES[sh][1]]) for sh in shapes]
+                for fname, flines in fl:
+                    script = pre + [('send', l) for l in plines] + [('send', l) for l in flines]
+                    if fname == 'starttls':
+                        script.append(('tls',))
+                    script.append(('send', b'NOOP\r\n'))
+                    cs.append(dict(kind='server', context=1, imm=1 if place == 'imm' else 0, auth=2, script=script,
+                                   verdicts=[(K_EHLO, b'bad.example', v), (K_HELO, b'bad.example', v)],
+                                   name='greet/%s/%s/%s/%s' % (v, pname, place, fname)))
+    return cs
+
+
+def refused_starttls_cases():
+    """the STARTTLS hook refuses (454 / 250 / 554), closes (421) or raises; commands pipelined behind the
+    STARTTLS line in the same write are then ordinary commands"""
+    cs = []
+    tails = [b'', b'MAIL FROM:<s@x.example>\r\nRCPT TO:<r@x.example>\r\n', b'NOOP\r\n', b'MAIL FROM:<s@x.ex']
+    for v in (454, 250, 554, 421, 1):
+        for ti, tail in enumerate(tails):
+            for pre in ([b'EHLO a.example\r\n'], [b'EHLO a.example\r\n', b'MAIL FROM:<p@x.example>\r\n']):
+                script = [('send', l) for l in pre] + [('send', b'STARTTLS\r\n' + tail), ('tls',),
+                                                         ('send', b'ample>\r\n' if ti == 3 else b'NOOP\r\n'), ('send', b'RSET\r\n')]
+                c = dict(kind='server', context=1, imm=0, auth=2, script=script, verdicts=[(K_STLS, b'', v)],
+                         name='starttls-hook/%s/%d/%d' % (v, ti, len(pre)))
+                if v in (454, 250, 554) and ti in (1, 2):
+                    c['all_lines_answered'] = len(pre)
+                cs.append(c)
+    return cs
+
+
 def misc_cases():
     cs = []
     # handshake that fails (the client talks plain text where the ClientHello should be)
@@ -1393,6 +1502,8 @@ def all_server_cases(ctx):
                 cases.append(auth_case(ch, 'ehlo', sh, verdict=v))
     cases += misc_cases()
     cases += graph_cases()
+    cases += greet_cases(ctx)
+    cases += refused_starttls_cases()
     for n in range(400 if ctx.quick else 8000):
         cases.append(random_case(ctx.rng, n))
     return cases
